@@ -311,7 +311,52 @@ pub fn run(rep: &mut Report) {
             };
             j_dur((i % 3) as usize, scan_dur(k, 0), s, out);
         });
-        sweep(rep, "c14.scan_approx", nsc, |i, out| j_approx(scan_dur(i, 5), out));
+            // every small count of every unit as a step (all whole seconds and minutes up to 120, hours up to 48, days up to 40,
+        // ms / us up to 20, both signs): steps that do and do not divide the next unit, x unremarkable durations; and the tie
+        // probes of every step: k x |s| + |s|/2 -2..+2 ns (both roundings of an odd half)
+        let mut us: Vec<i128> = vec![];
+        for (unit, top) in [(NS_S, 120i128), (60 * NS_S, 120), (3600 * NS_S, 48), (NS_DAY, 40), (1_000_000, 20), (1_000, 20), (7 * NS_DAY, 8)] {
+            for k in 1..=top {
+                us.push(k * unit);
+                us.push(-k * unit);
+            }
+        }
+        let nu = us.len() as u64;
+        rep.bound("unit_count_steps", nu);
+        sweep(rep, "c14.unit_steps", 3 * nu * 400, |i, out| {
+            let k = i / (3 * nu);
+            j_dur((i % 3) as usize, if k % 2 == 0 { lattice::scan_point(k, 0, -3 * NPC / 2, 3 * NPC) } else { lattice::scan_magnitude(k, 1, 30, 66) }, us[((i / 3) % nu) as usize], out);
+        });
+        let mut ts: Vec<i128> = st.iter().copied().filter(|s| *s != 0 && s.abs() < DMAX / 4).collect();
+        ts.extend(us.iter().copied());
+        for k in 0..200u64 {
+            ts.push(lattice::scan_magnitude(k, 2, 2, 74)); // unremarkable steps of every magnitude, odd and even
+        }
+        let nt = ts.len() as u64;
+        rep.bound("tie_probe_steps", nt);
+        sweep(rep, "c14.ties", 3 * nt * 6 * 10, |i, out| {
+            let s = ts[((i / 3) % nt) as usize];
+            let j = i / (3 * nt);
+            let m = s.abs();
+            let k = [-3i128, -1, 0, 1, 2, 1000][(j % 6) as usize];
+            let half = [m / 2 - 2, m / 2 - 1, m / 2, m / 2 + 1, m / 2 + 2, (m + 1) / 2, m - 1, 1, 0, m / 3][(j / 6) as usize];
+            let a = k * m + half;
+            if (DMIN..=DMAX).contains(&a) {
+                j_dur((i % 3) as usize, a, s, out);
+            }
+        });
+        // approx at the half-unit points of every unit, both signs (ties), +- 1 ns
+        let mut ap: Vec<i128> = vec![];
+        for unit in [1_000i128, 1_000_000, NS_S, 60 * NS_S, 3600 * NS_S, NS_DAY] {
+            for k in [0i128, 1, 2, 3, 11, 23, 59, 364] {
+                for d in [-1i128, 0, 1] {
+                    ap.push(k * unit + unit / 2 + d);
+                    ap.push(-(k * unit + unit / 2) + d);
+                }
+            }
+        }
+        sweep(rep, "c14.approx_ties", ap.len() as u64, |i, out| j_approx(ap[i as usize], out));
+    sweep(rep, "c14.scan_approx", nsc, |i, out| j_approx(scan_dur(i, 5), out));
     }
 
     // order independence (depth-2 operation sequences on one thread): floor / ceil / round of 8 durations by 6 steps
